@@ -190,10 +190,10 @@ fn round(seed_rng: &mut Rng, round_no: u64) -> Value {
     }
     // final flush, then drop the sender: the worker must drain and terminate
     set_current_watcher("final", false);
-    let r = emit_batcher::sync::blocking_flush(&*sender, Duration::from_secs(20));
+    let r = emit_batcher::sync::blocking_flush(&*sender, Duration::from_secs(10));
     rec.log(json!({"ev": "FlushRet", "w": "final", "ret": r}));
     if !r {
-        what.push("final blocking_flush timed out after 20 s".to_string());
+        what.push("final blocking_flush timed out after 10 s".to_string());
     }
     drop(sender);
     // join with a watchdog
@@ -204,14 +204,14 @@ fn round(seed_rng: &mut Rng, round_no: u64) -> Value {
         d2.store(true, Ordering::SeqCst);
     });
     let t0 = std::time::Instant::now();
-    while !done.load(Ordering::SeqCst) && t0.elapsed() < Duration::from_secs(20) {
+    while !done.load(Ordering::SeqCst) && t0.elapsed() < Duration::from_secs(10) {
         std::thread::sleep(Duration::from_micros(200));
     }
     let hang = !done.load(Ordering::SeqCst) || !r;
     if done.load(Ordering::SeqCst) {
         let _ = joiner.join();
     } else {
-        what.push("worker did not terminate within 20 s of the sender being dropped".to_string());
+        what.push("worker did not terminate within 10 s of the sender being dropped".to_string());
     }
     emit_batcher::verif::install(None);
     let trace = rec.finish(cap, !hang);
@@ -327,9 +327,17 @@ fn main() {
     std::panic::set_hook(Box::new(|_| {}));
     let mut out = std::io::BufWriter::new(std::fs::File::create(&args[1]).unwrap());
     let mut rng = Rng::from_env(0xB47C);
+    let mut hangs = 0;
     for i in 0..rounds {
         let v = round(&mut rng, i);
+        if v["hang"] == true {
+            hangs += 1;
+        }
         writeln!(out, "{}", v).unwrap();
+        if hangs >= 2 {
+            // every further hang would cost the watchdog time again; two witnesses are enough
+            break;
+        }
     }
     contexts(&mut out);
 }
